@@ -272,10 +272,11 @@ class ShelxlRefine():
             return False
         lattline = find_line(list_file, r'^ LATT.*')
         centro = None
-        if lattline:
+        # find_line() returns -1 if the listing does not echo a LATT instruction (LATT 1 is the default):
+        if lattline >= 0:
             try:
                 latt = int(list_file[lattline].split()[1])
-            except ValueError:
+            except (ValueError, IndexError):
                 latt = 1
             if latt > 0:
                 centro = True
